@@ -582,6 +582,12 @@ def run(ck):
                 if spec is None:
                     ck.count("rejected_no_tissue")
                     continue
+                if case["seed"] % 3 == 0 and case["type"] != "literal":
+                    # the path held another dump before (a shipped one, already parsed in this process): rewriting a file and parsing
+                    # it again must give the new file's tissue
+                    shutil.copyfile(os.path.join(REPO, "tests/data/initial_furrow.dmp"), path)
+                    observe(path)
+                    ck.count("path_rewritten_after_an_earlier_parse")
                 with open(path, "w", newline="") as f:
                     f.write(serialise(spec, np.random.default_rng(case["seed"] + 1)))
             try:
